@@ -409,7 +409,22 @@ def lived_in_table(make, cols, seed, warm=None):
         rng.shuffle(perm)
     try:
         start = [[c[p] for p in perm] for c in cols]
-        if n >= 3:
+        if seed % 3 == 0:
+            # every column starts with pairwise DIFFERENT cells (repeats replaced by fresh values of the same class): what
+            # was seen of the table then - "this key is unique" - is no longer true of its final contents
+            for c in start:
+                seen, fresh_i = [], 0
+                for i, x in enumerate(c):
+                    if x is not None and any(type(x) is type(y) and x == y for y in seen) and type(x) in (int, str):
+                        while True:
+                            fresh_i += 1
+                            cand = (max([y for y in c if type(y) is int], default=0) + 1000 + fresh_i) if type(x) is int \
+                                else f"{x}~{fresh_i}"
+                            if all(cand != y for y in c):
+                                break
+                        c[i] = cand
+                    seen.append(c[i])
+        elif n >= 3:
             j, k = rng.sample(range(n), 2)
             for c in start:
                 c[j] = c[k]              # a different multiset of rows as well (row k twice, one row missing)
@@ -420,10 +435,18 @@ def lived_in_table(make, cols, seed, warm=None):
             except Exception:                                # noqa: BLE001
                 pass
         live = t._underlying
-        for _pass in (0, 1):
+        if seed % 3 == 0 or seed % 3 == 1:
+            # column by column, an EVEN number of consecutive writes each: CPython hands the storage tuple freed by one write
+            # to the next one of the same size, so every column ends at the address it had when the table was looked at
             for j, c in enumerate(cols):
-                for i in range(n):
-                    live[j][i] = c[i]
+                for _pass in (0, 1):
+                    for i in range(n):
+                        live[j][i] = c[i]
+        else:
+            for _pass in (0, 1):
+                for j, c in enumerate(cols):
+                    for i in range(n):
+                        live[j][i] = c[i]
         fresh = make(cols)
         ok = len(t._underlying) == len(fresh._underlying) and all(
             len(a._underlying) == len(b._underlying) and repr(a.schema()) == repr(b.schema())
